@@ -153,6 +153,45 @@ func runC18(r *vk.Run) {
 		}
 	})
 
+	// map-iteration orders inside single stages: the same evaluation repeated over an in-memory storage
+	mapQueries := []string{
+		`{job="j"} | json o, o2="o", o3="o"`, `{job="j"} | json a="x.y", b="x.y", c="x"`, `{job="j"} | json | drop msg`, `{job="j"} | json | keep a, x, o`,
+		`{job="j"} | logfmt | drop msg`, `{job="j"} | json | label_format p="{{.a}}", q="{{.b}}", r="{{.o}}"`, `{job="j"} | json | label_format z=a, y=b`,
+		`{job="j"} | regexp "(?P<a>\\w+) (?P<b>\\w+)" | drop msg`, `sum by (a, b) (count_over_time({job="j"} | json | drop msg [10s]))`,
+		`avg(sum_over_time({job="j"} | json | drop msg | unwrap n [10s])) by (a)`, `stddev without (a) (sum_over_time({job="j"} | json | drop msg | unwrap n [10s]))`,
+	}
+	r.Phase("maporder", r.N(6, 120), func(c *vk.Case) {
+		rng := c.Rng
+		var recs []Rec
+		for i := 0; i < 12; i++ {
+			line := fmt.Sprintf(`{"a":"%s","b":"%s","n":%d.%d,"o":{"k%d":1,"z":[%d,null]},"x":{"y":{"deep":%d}}}`, vk.Pick(rng, []string{"p", "q", "r"}), vk.Pick(rng, []string{"u", "v"}), rng.Intn(100), rng.Intn(10), i%3, i, i%4)
+			if i%4 == 3 {
+				line = fmt.Sprintf("a=%s b=%s n=%d word other", vk.Pick(rng, []string{"p", "q"}), vk.Pick(rng, []string{"u", "v"}), rng.Intn(50))
+			}
+			recs = append(recs, Rec{TS: c14T0 + int64(i)*5e8 + int64(i), Line: line, Labels: map[string]string{"job": "j", "pod": fmt.Sprint(i % 2)}})
+		}
+		for _, q := range mapQueries {
+			first := ""
+			for rep := 0; rep < c.R.N(12, 40); rep++ {
+				res, err := evalQuery(&MemQuerier{Recs: recs, ErrAfter: -1}, q, EvalP{Start: c14T0, End: c14T0 + 10e9, Step: 5 * time.Second, Limit: -1})
+				c.Eval(1)
+				if err != nil {
+					c.Fail("", fmt.Sprintf("query %s failed: %v", q, err), map[string]any{"query": q})
+					return
+				}
+				canon := res.Canonical()
+				if first == "" {
+					first = canon + "\x00"
+				} else if first != canon+"\x00" {
+					c.Fail("", fmt.Sprintf("query %s over the same records gave different results in two evaluations (repetition %d)", q, rep), map[string]any{"query": q, "records": recs, "this_run": canon, "first_run": first})
+					return
+				}
+				c.Count("maporder_runs_compared", 1)
+			}
+		}
+	})
+	r.Require("maporder_runs_compared", 500)
+
 	// tied timestamps across containers: the outcome of limit / first / last must not depend on which
 	// request completed first
 	tieQueries := []struct {
